@@ -63,7 +63,10 @@ func fetchImageSpelled(fx *isoFixture, ps3 bool, route, spell string) ([]byte, e
 		cmd := exec.Command(hx.BinPath(), args...)
 		cmd.Env = []string{"PATH=/usr/bin:/bin", "HOME=/nonexistent-home"}
 		cmd.Dir = fx.Tmp
-		ob, err := cmd.CombinedOutput()
+		ob, err := combinedOutputBounded(cmd)
+		if f, ok := err.(*hx.Fail); ok {
+			return nil, f
+		}
 		if err != nil {
 			if strings.Contains(string(ob), "panic:") || strings.Contains(string(ob), "goroutine ") {
 				return nil, hx.Failf("no-panic", "make-iso crashed: %s", head(string(ob), 1500))
